@@ -106,6 +106,8 @@ def run(chk):
     from lib import strsegment, fpuarith
     strsegment.run(chk)
     fpuarith.run(chk, enum)
+    from lib import addr16
+    addr16.run(chk)
     return chk.finish(
         level="other", exhaustive=False,
         explanation=("Table, database and dispatch rules over the x86 backend of /repo's current source: every entry of the encoder's "
